@@ -57,9 +57,11 @@ func makeDeadline(d time.Duration) fasttime {
 		if !fast.running && !fast.start.IsZero() {
 			// update fast.current
 			fast.current.write(durationToTicks(time.Since(fast.start)))
-			// recalculate our end value
-			end = fast.current.read() + durationToTicks(d+clockPeriod)
 		}
+		// recalculate our end value: fast.current may have been stale when it was read
+		// above, and it may have been another goroutine that refreshed it and restarted
+		// the clock in the meantime (so fast.running is no indication that end is good)
+		end = fast.current.read() + durationToTicks(d+clockPeriod)
 		fast.mu.Unlock()
 		extendClock(end)
 	}
